@@ -145,7 +145,7 @@ func (r *runState) scenarioSwitch() {
 		synctest.Wait()
 	}()
 	r.sample["payload"] = pcfg.MaxPacketMsgPayloadSize
-	c.Finger("switch", pcfg.MaxPacketMsgPayloadSize, nch)
+	r.finger("switch", pcfg.MaxPacketMsgPayloadSize, nch)
 
 	idOf := func(pk crypto.PubKey) string { return pcommon.TransPubKeyToStringID(pk) }
 	verdicts := []string{}
@@ -205,7 +205,7 @@ func (r *runState) scenarioSwitch() {
 		}
 		accepted := sw.Peers().HasID(idOf(claimed))
 		verdicts = append(verdicts, fmt.Sprintf("%s: remote done=%v err=%v, switch has peer %v", tag, rdone, rerr != nil, accepted))
-		c.Finger("switch-session", i, tag, accepted)
+		r.finger("switch-session", i, tag, accepted)
 		c.NonTrivial()
 		// the oracle: every peer the switch holds is known under a key that was
 		// proven on its connection
@@ -300,7 +300,7 @@ func (r *runState) switchTraffic(sw *p2p.Switch, rr *recReactor, sc *conn.Secret
 	}
 	msgs := 0
 	for s := 0; s < 2; s++ {
-		n, _ := d.flows[s].fingerprint(c)
+		n, _ := d.flows[s].fingerprint(r)
 		msgs += n
 	}
 	r.sample["switch_traffic_delivered"] = msgs
